@@ -23,6 +23,23 @@ NChunks == (NT + Chunk - 1) \div Chunk
 Min2(a, b) == IF a < b THEN a ELSE b
 Packed == {Desc("a.b", <<TaDecl>> \o Group((c - 1) * Chunk + 1, Min2(c * Chunk, NT))) : c \in 1..NChunks}
 
+(* a fixed list of deeper type trees (nesting 2-3, whatever Depth is) at the same five positions: optional / array / *)
+(* map of inline structs and enums, containers of containers, a struct inside an optional inside a struct           *)
+S1(n, t) == Struct(<<F(n, t)>>)
+DeepTypes == <<Maybe(S1("line", Leaf("int"))), Maybe(Arr(S1("file", Leaf("string")))), Maybe(Map(S1("x", Leaf("int")))),
+               Arr(S1("a", Leaf("int"))), Map(S1("a", Leaf("bool"))), Arr(Maybe(Leaf("int"))), Map(Maybe(Leaf("string"))),
+               Arr(Arr(Leaf("int"))), Map(Arr(Leaf("string"))), Maybe(Arr(Leaf("int"))), Maybe(Map(Leaf("float"))),
+               Arr(Enum(<<"a", "b">>)), Maybe(Enum(<<"a", "b">>)), Map(Map(Leaf("bool"))), Arr(Alias("Ta")), Map(Alias("Ta")),
+               S1("a", Maybe(S1("b", Arr(Leaf("int"))))), S1("a", Arr(S1("b", Maybe(Leaf("string"))))), Maybe(Arr(Maybe(Leaf("object")))),
+               Arr(Map(Leaf("object")))>>
+DeepGroup == FlattenSeq([k \in 1..Len(DeepTypes) |-> LET i == 900 + k  t == DeepTypes[k] IN
+   <<MType(Nm("A", i), t),
+     MMethod(Nm("I", i), Struct(<<F("x", t), F("y", Leaf("int"))>>), Struct(<<>>)),
+     MMethod(Nm("O", i), Struct(<<>>), Struct(<<F("w", Leaf("bool")), F("x", t)>>)),
+     MMethod(Nm("E", i), Struct(<<F("x", t)>>), Struct(<<F("x", t)>>)),
+     MError(Nm("X", i), <<Struct(<<F("x", t)>>)>>)>>])
+Deep == {Desc("a.b", <<TaDecl>> \o DeepGroup)}
+
 (* names: Go keywords and the generator's local identifiers as field names, upper case and digits in names *)
 OddFields == <<"type", "func", "error", "in", "out", "c", "ctx", "m", "flags", "err", "receive", "s", "call", "methodname",
                "param", "e", "ok", "interface", "map", "string", "int", "range", "go", "select", "var", "package", "import",
@@ -52,13 +69,13 @@ TypeOnly == {Desc("a.b", <<MType("T", TypeSeq[i]), MMethod("M", Struct(<<>>), St
 Minimal == {Desc("a.b", <<MMethod("Ping", Struct(<<>>), Struct(<<>>))>>),
             Desc("a.b", <<MMethod("M", Struct(<<F("x", Leaf("int"))>>), Struct(<<F("y", Leaf("string"))>>))>>),
             Desc("a.b", <<MType("T", Struct(<<F("a", Leaf("bool"))>>)), MMethod("M", Struct(<<>>), Struct(<<>>)), MError("Bare", <<>>)>>)}
-Programs == Packed \cup Names \cup Solo \cup TypeOnly \cup Minimal
+Programs == Packed \cup Names \cup Solo \cup TypeOnly \cup Minimal \cup Deep
 
 (* the text a program is written as (the grammar's layout freedom, C05): plain; a documentation block with backticks *)
 (* and quotes above every member; CRLF line ends with documentation; documentation that mentions identifiers the     *)
 (* generator itself emits or searches its output for; documentation that contains the generator's own placeholder    *)
 Styles == {"plain", "docs", "crlf", "words", "placeholder"}
-Cases == {[desc |-> d, toks |-> TokD(d), style |-> st] : d \in Packed \cup Names, st \in {"plain", "docs", "crlf"}}
+Cases == {[desc |-> d, toks |-> TokD(d), style |-> st] : d \in Packed \cup Names \cup Deep, st \in {"plain", "docs", "crlf"}}
          \cup {[desc |-> d, toks |-> TokD(d), style |-> "plain"] : d \in Solo \cup TypeOnly}
          \cup {[desc |-> d, toks |-> TokD(d), style |-> st] : d \in Minimal, st \in Styles}
 
